@@ -254,7 +254,10 @@ class TapExecutor(Executor):
 
     def submit(self, fn, *args, **kwargs):
         w = self.w
-        w.rec("tap_submit", tap=self.name, fn=getattr(fn, "name", None))
+        # how many of the futures handed out earlier are not done at this very instant (state read without taking the
+        # future's lock: the done-callback that records tap_done may lag behind the state change by a pre-emption)
+        nd = sum(1 for q in self.futs if q._state not in ("FINISHED", "CANCELLED", "CANCELLED_AND_NOTIFIED"))
+        w.rec("tap_submit", tap=self.name, fn=getattr(fn, "name", None), not_done=nd)
         f = self.inner.submit(fn, *args, **kwargs)
         self.futs.append(f)
         idx = len(self.futs) - 1
